@@ -99,8 +99,19 @@ abi.fee_delegation(fd, fdfail)
 
 // LuaBankV2 / LuaBankV2Fail: code a creator redeploys over LuaBank (private chains). inc counts in hundreds, so
 // that running this code where the old one should run is visible in storage; the second one's constructor fails.
-var LuaBankV2 = strings.Replace(strings.Replace(LuaBank, "(cnt:get() or 0) + 1", "(cnt:get() or 0) + 100", 1), "function constructor() cnt:set(0) end", "function constructor() end", 1)
-var LuaBankV2Fail = strings.Replace(LuaBankV2, "function constructor() end", "function constructor() m[\"rd\"] = 1; error(\"redeploy refused by constructor\") end", 1)
+var LuaBankV2 = LuaBankStep(100, false)
+var LuaBankV2Fail = LuaBankStep(100, true)
+
+// LuaBankStep is LuaBank with inc counting in steps of n (so that it is visible in storage which version ran);
+// fail: the constructor raises an error.
+func LuaBankStep(n int, fail bool) string {
+	s := strings.Replace(LuaBank, "(cnt:get() or 0) + 1", fmt.Sprintf("(cnt:get() or 0) + %d", n), 1)
+	ctor := "function constructor() end"
+	if fail {
+		ctor = "function constructor() m[\"rd\"] = 1; error(\"redeploy refused by constructor\") end"
+	}
+	return strings.Replace(s, "function constructor() cnt:set(0) end", ctor, 1)
+}
 
 // Next returns the next nonce to use for account i assuming all earlier generated txs of this
 // block are included (pending counts within the block are tracked in p).
@@ -311,16 +322,26 @@ func (g *Gen) Block(no uint64, n int) []*GTx {
 			tx := sp.Build()
 			out = append(out, &GTx{Desc: desc, Kind: k, From: i, Expect: exp, Tx: tx})
 			continue
+		case "deploy-fail":
+			// a deployment whose constructor fails; somebody calls the address it would have got (below)
+			if ver < 2 {
+				continue
+			}
+			pl, err := DeployPayload(LuaBankV2Fail, nil, ver)
+			if err != nil {
+				continue
+			}
+			sp.Type, sp.Payload, sp.Amount = types.TxType_DEPLOY, pl, big.NewInt(0)
+			exp = "fail"
+			desc = fmt.Sprintf("deploy-fail a%d", i)
 		case "redeploy", "redeploy-fail":
 			// only the creator may replace the code; only non-public chains know the tx type
 			if len(g.Contracts) == 0 || ver < 2 {
 				continue
 			}
 			ct := g.Contracts[g.R.Intn(len(g.Contracts))]
-			src := LuaBankV2
-			if k == "redeploy-fail" {
-				src = LuaBankV2Fail
-			}
+			// every version counts in its own step: a wrong version at work is always visible
+			src := LuaBankStep(100+g.R.Intn(800), k == "redeploy-fail")
 			pl, err := DeployPayload(src, nil, ver)
 			if err != nil {
 				continue
@@ -398,8 +419,11 @@ func (g *Gen) Block(no uint64, n int) []*GTx {
 		}
 		tx := sp.Build()
 		out = append(out, &GTx{Desc: desc, Kind: k, From: i, Tx: tx, Expect: exp})
-		if k == "redeploy" || k == "redeploy-fail" {
+		if k == "redeploy" || k == "redeploy-fail" || k == "deploy-fail" {
 			// somebody else calls the same contract right afterwards in the same block
+			if k == "deploy-fail" {
+				sp.To = contract.CreateContractID(tx.Body.Account, tx.Body.Nonce)
+			}
 			for tr := 0; tr < 20; tr++ {
 				j := g.pick()
 				if j == i || blocked[j] {
